@@ -199,14 +199,12 @@ Definition known_asis : list (string * string * option (list constraint) * value
   (* every key of sklearn's PAIRWISE_DISTANCE_FUNCTIONS is accepted; the docstrings enumerate PAIRED_DISTANCES *)
   ("LinearWasserstein", "metric", asis_metric, VStr "haversine"); ("MLPWasserstein", "metric", asis_metric, VStr "haversine");
   ("CategoricalWasserstein", "metric", asis_metric, VStr "haversine"); ("WassersteinGEMINI", "metric", asis_metric, VStr "nan_euclidean");
-  (* no entry in _parameter_constraints: nothing is validated *)
-  ("SparseMLPModel", "groups", None, VInt 5); ("SparseMLPMMD", "groups", None, VStr "ab");
-  (* the decorator's keys are "must-link" / "cannot-link": they name no parameter, nothing is validated *)
-  ("add_mlcl_constraint", "must_link", None, VInt 5); ("add_mlcl_constraint", "cannot_link", None, VStr "ab");
+  (* (repaired in /repo: SparseMLP*.groups and add_mlcl_constraint.must_link / cannot_link had no constraint at all) *)
   (* scikit-learn's "array-like" accepts a dict (it has __len__) *)
   ("draw_gmm", "loc", Some [ArrayLikeC], VDict); ("draw_gmm", "scale", Some [ArrayLikeC], VDict); ("draw_gmm", "pvals", Some [ArrayLikeC], VDict);
   ("multivariate_student_t", "loc", Some [ArrayLikeC], VDict); ("multivariate_student_t", "scale", Some [ArrayLikeC], VDict);
   ("print_kauri_tree", "feature_names", Some [ArrayLikeC; NoneC], VDict);
+  ("add_mlcl_constraint", "must_link", Some [ArrayLikeC; NoneC], VDict); ("add_mlcl_constraint", "cannot_link", Some [ArrayLikeC; NoneC], VDict);
   (* documented "df: int", validated as a positive real *)
   ("multivariate_student_t", "df", Some [Interval TReal (Some (Fin (Qmake 0 1))) None CNeither], VReal (Qmake 5 2))
 ].
